@@ -24,6 +24,7 @@ import (
 	"regexp"
 	"runtime"
 	"strings"
+	"sync"
 	"syscall"
 	"testing"
 	"time"
@@ -168,16 +169,56 @@ prometheus = true
 			return
 		}
 		autoconfBefore := sysctl("vr0", "autoconf")
+		// the supervisor's notification socket (systemd Type=notify)
+		var nmu sync.Mutex
+		var notes []string
+		notifyPath := filepath.Join(dir, "notify.sock")
+		if nl, err := net.ListenUnixgram("unixgram", &net.UnixAddr{Name: notifyPath, Net: "unixgram"}); err == nil {
+			defer nl.Close()
+			go func() {
+				buf := make([]byte, 4096)
+				for {
+					n, _, err := nl.ReadFromUnix(buf)
+					if err != nil {
+						return
+					}
+					nmu.Lock()
+					notes = append(notes, string(buf[:n]))
+					nmu.Unlock()
+				}
+			}()
+		} else {
+			notifyPath = ""
+		}
+		notified := func(what string) (bool, int) {
+			nmu.Lock()
+			defer nmu.Unlock()
+			for _, n := range notes {
+				for _, l := range strings.Split(n, "\n") {
+					if l == what {
+						return true, len(notes)
+					}
+				}
+			}
+			return false, len(notes)
+		}
+		start := func(cfgPath string, logs *strings.Builder) (*exec.Cmd, chan error, error) {
+			cmd := exec.Command(os.Args[0], "-test.run", "^$")
+			cmd.Env = append(os.Environ(), "VERIF_E2E_CONFIG="+cfgPath, "VERIF_OUT=", "NOTIFY_SOCKET="+notifyPath)
+			cmd.Stderr, cmd.Stdout = logs, logs
+			if err := cmd.Start(); err != nil { // forked from this thread: the daemon lives in the namespace
+				return nil, nil, err
+			}
+			exited := make(chan error, 1)
+			go func() { exited <- cmd.Wait() }()
+			return cmd, exited, nil
+		}
 		var logs strings.Builder
-		cmd := exec.Command(os.Args[0], "-test.run", "^$")
-		cmd.Env = append(os.Environ(), "VERIF_E2E_CONFIG="+cfg, "VERIF_OUT=", "NOTIFY_SOCKET=")
-		cmd.Stderr, cmd.Stdout = &logs, &logs
-		if err := cmd.Start(); err != nil { // forked from this thread: the daemon lives in the namespace
+		cmd, exited, err := start(cfg, &logs)
+		if err != nil {
 			res.unavailable = err.Error()
 			return
 		}
-		exited := make(chan error, 1)
-		go func() { exited <- cmd.Wait() }()
 		killed := false
 		defer func() {
 			if !killed {
@@ -187,15 +228,17 @@ prometheus = true
 		}()
 
 		// nextRA waits for the next router advertisement on the peer (any destination)
+		var routerLL netip.Addr
 		nextRA := func(d time.Duration) *ndp.RouterAdvertisement {
 			dl := time.Now().Add(d)
 			for {
 				_ = peer.SetReadDeadline(dl)
-				m, _, _, err := peer.ReadFrom()
+				m, _, src, err := peer.ReadFrom()
 				if err != nil {
 					return nil
 				}
 				if ra, ok := m.(*ndp.RouterAdvertisement); ok {
+					routerLL = src
 					return ra
 				}
 			}
@@ -313,8 +356,31 @@ prometheus = true
 		}
 		res.obs["trace"] = trace
 
-		// ---- terminate: final RA with router lifetime 0, autoconf restored, exit status 0
-		_ = setSysctl("vr0", "forwarding", "1")
+		// a host that knows the router solicits its unicast address (RFC 4861 allows it): answered like any other
+		if routerLL.IsValid() {
+			for nextRA(50*time.Millisecond) != nil {
+			}
+			answered := false
+			for try := 0; try < 2 && !answered; try++ {
+				_ = peer.WriteTo(&ndp.RouterSolicitation{}, nil, routerLL)
+				answered = nextRA(2*time.Second) != nil
+			}
+			res.obs["rs_to_router_address"] = answered
+			if !answered {
+				res.viol = append(res.viol, fmt.Sprintf("a router solicitation sent to the router's own address %s got no answer within 2 s (twice)", routerLL))
+			}
+		}
+		// one interface (vd0) never came up: the supervisor has been told about the tasks that started, but not READY=1
+		if ready, n := notified("READY=1"); n > 0 {
+			res.obs["notifications"] = n
+			if ready {
+				res.viol = append(res.viol, "READY=1 was announced although the advertiser of vd0 never reported ready")
+			}
+		}
+
+		// ---- terminate, with forwarding switched off a moment before (nothing went out in between): final RA with router
+		// lifetime 0, autoconf restored, exit status 0
+		_ = setSysctl("vr0", "forwarding", "0")
 		for nextRA(50*time.Millisecond) != nil {
 		}
 		t0 := time.Now()
@@ -339,6 +405,102 @@ prometheus = true
 		}
 		if got := sysctl("vr0", "autoconf"); killed && got != autoconfBefore {
 			res.viol = append(res.viol, fmt.Sprintf("autoconf of the interface was %q before the daemon started and is %q after it exited", autoconfBefore, got))
+		}
+		if !killed {
+			return
+		}
+		_ = setSysctl("vr0", "forwarding", "1")
+
+		// ---- second run: an interface that cannot be reported (wildcard prefix, never initialised) is listed BEFORE a healthy
+		// one.  A scrape then either fails as a whole (the acceptable alternative) or is complete: it never answers 200
+		// with the healthy interface missing
+		cfgB := filepath.Join(dir, "corerad-b.toml")
+		_ = os.WriteFile(cfgB, []byte(`
+[[interfaces]]
+name = "vd0"
+advertise = true
+  [[interfaces.prefix]]
+  prefix = "::/64"
+
+[[interfaces]]
+name = "vr0"
+advertise = true
+max_interval = "4s"
+min_interval = "3s"
+  [[interfaces.prefix]]
+  prefix = "2001:db8:e2e::/64"
+
+[debug]
+address = "`+addr+`"
+prometheus = true
+`), 0o644)
+		var logsB strings.Builder
+		cmdB, exitedB, err := start(cfgB, &logsB)
+		if err == nil {
+			for nextRA(50*time.Millisecond) != nil {
+			}
+			if nextRA(15*time.Second) != nil {
+				st, body := 0, ""
+				for i := 0; i < 30 && st == 0; i++ {
+					st, body = get("/metrics")
+					if st == 0 {
+						time.Sleep(100 * time.Millisecond)
+					}
+				}
+				res.obs["partial_scrape_status"] = st
+				if st == 200 && !strings.Contains(body, `corerad_advertiser_prefix_autonomous{interface="vr0"`) {
+					res.viol = append(res.viol, "/metrics answers 200 while the interface listed first cannot be reported, and the samples of the healthy interface vr0 listed after it are missing: an incomplete scrape passed off as a complete one")
+				}
+			}
+			_ = cmdB.Process.Signal(syscall.SIGTERM)
+			select {
+			case <-exitedB:
+			case <-time.After(10 * time.Second):
+				_ = cmdB.Process.Kill()
+				res.viol = append(res.viol, "second run: the daemon did not exit within 10 s of SIGTERM")
+			}
+			res.obs["daemon_log_b"] = lastLines(logsB.String(), 6)
+		}
+
+		// ---- third run (thorough tier): a quiet link.  The daemon is stopped more than 30 s after its last RA; the final RA
+		// still goes out
+		if verifh.Thorough() {
+			cfgC := filepath.Join(dir, "corerad-c.toml")
+			_ = os.WriteFile(cfgC, []byte(`
+[[interfaces]]
+name = "vr0"
+advertise = true
+max_interval = "1800s"
+  [[interfaces.prefix]]
+  prefix = "2001:db8:e2e::/64"
+`), 0o644)
+			var logsC strings.Builder
+			cmdC, exitedC, err := start(cfgC, &logsC)
+			if err == nil {
+				for nextRA(50*time.Millisecond) != nil {
+				}
+				last := time.Time{}
+				// the three initial RAs are at most 16 s apart; then nothing for minutes
+				for nextRA(20*time.Second) != nil {
+					last = time.Now()
+				}
+				if !last.IsZero() {
+					time.Sleep(time.Until(last.Add(33 * time.Second)))
+					_ = cmdC.Process.Signal(syscall.SIGTERM)
+					fin := nextRA(5 * time.Second)
+					res.obs["quiet_link_final_ra"] = fin != nil
+					if fin == nil || fin.RouterLifetime != 0 {
+						res.viol = append(res.viol, fmt.Sprintf("stopped %v after its last RA on a quiet link, the daemon sent no final RA with router lifetime 0 (got %v): %s", time.Since(last).Round(time.Second), fin, lastLines(logsC.String(), 3)))
+					}
+				} else {
+					_ = cmdC.Process.Signal(syscall.SIGTERM)
+				}
+				select {
+				case <-exitedC:
+				case <-time.After(10 * time.Second):
+					_ = cmdC.Process.Kill()
+				}
+			}
 		}
 	}()
 	res := <-resC
